@@ -32,9 +32,14 @@ Definition nums (ss : list string) : list N := flat_map nums1 ss.
 
 (** leaf id lists: [LSeq n] = 1, 2, ..., n (all leaves distinct) *)
 Inductive idlist := LSeq (n : N) | LIds (chunks : list string).
+Fixpoint nseq (fuel : nat) (start : N) : list N :=
+  match fuel with
+  | O => []
+  | S f => start :: nseq f (start + 1)
+  end.
 Definition ids_of (l : idlist) : list N :=
   match l with
-  | LSeq n => map N.of_nat (seq 1 (N.to_nat n))
+  | LSeq n => nseq (N.to_nat n) 1
   | LIds c => nums c
   end.
 
